@@ -117,8 +117,12 @@ func structBody(m message.Message) (string, string) {
 				panic("tag value not encodable")
 			}
 		}
-		fs = append(fs, fmt.Sprintf("%s;%s;%d;%s;%s;%s;%s;%s;%s", f.Name, isArr, arrLen, gt.Name(), eu,
-			f.Tag.Get("mavenum"), f.Tag.Get("mavlen"), f.Tag.Get("mavext"), f.Tag.Get("mavname")))
+		fd := fmt.Sprintf("%s;%s;%d;%s;%s;%s;%s;%s;%s", f.Name, isArr, arrLen, gt.Name(), eu,
+			f.Tag.Get("mavenum"), f.Tag.Get("mavlen"), f.Tag.Get("mavext"), f.Tag.Get("mavname"))
+		if !f.IsExported() {
+			fd += ";0"
+		}
+		fs = append(fs, fd)
 	}
 	body := strings.Join(fs, ",")
 	if body == "" {
